@@ -18,6 +18,13 @@ type lockRec struct {
 	AtLock *State
 }
 
+// deferRec: a registered deferred call and the condition (relative to the state's path) under which it
+// was registered.
+type deferRec struct {
+	d    *ssa.Defer
+	cond string
+}
+
 type State struct {
 	pc       string
 	cells    map[ssa.Value]Val
@@ -26,7 +33,7 @@ type State struct {
 	called   map[string]string // callee short name -> "has been called on this path" condition
 	lockInfo map[string]*lockRec
 	lastSeen map[string]*State // lock key -> state at last unlock (for rely)
-	defers   []*ssa.Defer
+	defers   []deferRec // deferred calls registered on the way, each with the condition under which it was
 	labels   map[string]*State
 	dead     bool
 }
@@ -56,7 +63,7 @@ func (s *State) Clone() *State {
 	for k, v := range s.labels {
 		n.labels[k] = v
 	}
-	n.defers = append([]*ssa.Defer(nil), s.defers...)
+	n.defers = append([]deferRec(nil), s.defers...)
 	return n
 }
 
@@ -580,13 +587,20 @@ func (fx *FuncExec) Merge(ins []incoming, what string) *State {
 			}
 		}
 	}
-	// defers: must agree
+	// defers: the common prefix is unconditional; what only some incoming paths registered is kept
+	// with the condition of that path (run conditionally at RunDefers)
+	common := len(ins[0].st.defers)
 	for _, in := range ins[1:] {
-		if len(in.st.defers) != len(n.defers) {
-			// keep the longer list guarded: unsupported in general; we take the common case where one side returned
-			if len(in.st.defers) > len(n.defers) {
-				n.defers = append([]*ssa.Defer(nil), in.st.defers...)
-			}
+		k := 0
+		for k < common && k < len(in.st.defers) && in.st.defers[k] == ins[0].st.defers[k] {
+			k++
+		}
+		common = k
+	}
+	n.defers = append([]deferRec(nil), ins[0].st.defers[:common]...)
+	for _, in := range ins {
+		for _, d := range in.st.defers[common:] {
+			n.defers = append(n.defers, deferRec{d: d.d, cond: and(in.cond, d.cond)})
 		}
 	}
 	for _, in := range ins {
